@@ -232,18 +232,22 @@ async def stream(
     # This dirty trickery is for cases when the server thinks too slowly before
     # sending the headers, but the stopper is already set during the initial wait.
     # NB: the callbacks of futures are called outside of tasks, so the task is remembered here.
+    # NB: a callback that is already scheduled when it is removed is still called; it must not
+    # cancel the task when the request is over: that cancellation would hit something else.
     task = asyncio.current_task()
     cancelled_by_stopper = False
+    requesting = False
 
     def request_cancel_callback(_: aiotasks.Future) -> None:
         nonlocal cancelled_by_stopper
-        if task is not None:  # for type-checkers; this is `async def`, so always in a task.
+        if task is not None and requesting:
             cancelled_by_stopper = True
             task.cancel()
 
     if stopper is not None and not stopper.done():
         stopper.add_done_callback(request_cancel_callback)
     try:
+        requesting = True
         response = await request(
             method='get',
             url=url,
@@ -264,6 +268,7 @@ async def stream(
         else:
             raise  # triggered not (only) by the stopper, escalate
     finally:
+        requesting = False
         if stopper is not None:
             stopper.remove_done_callback(request_cancel_callback)
 
